@@ -334,9 +334,9 @@ Proof.
 Qed.
 
 Theorem scalar_ref :
-  forall e s j r, f22_region e s j = false -> doc_scalar O e s j r -> load_scalar O e s j = r.
+  forall e s j r, doc_scalar O e s j r -> load_scalar O e s j = r.
 Proof.
-  intros e s j r Hreg H. destruct H.
+  intros e s j r H. destruct H.
   (* str *)
   - reflexivity.
   - reflexivity.
@@ -408,8 +408,8 @@ Proof.
     match goal with Hc : iso_candidate Env _ = true |- _ => unfold iso_candidate in Hc; cbn [is_env andb] in Hc end.
     rewrite numeric_form_doc. destruct (numeric_doc s); [discriminate|]. reflexivity.
   (* numbers for datetime / date *)
-  - destruct e; try discriminate; reflexivity.
-  - destruct e; try discriminate; reflexivity.
+  - destruct e; reflexivity.
+  - destruct e; reflexivity.
   - destruct e; reflexivity.
   - destruct e; reflexivity.
   - cbn [load_scalar load_datetime_env]. rewrite numeric_form_doc.
@@ -663,11 +663,11 @@ Qed.
 (* with the documented scalar coercion at the hole *)
 Corollary everywhere_ref :
   forall e c s (g : jv -> option (res pv)),
-  (forall j r, g j = Some r -> doc_scalar O e s j r /\ f22_region e s j = false) ->
+  (forall j r, g j = Some r -> doc_scalar O e s j r) ->
   forall j R, lift O e c g j = Some R -> load O e (plug c (TS s)) j = R.
 Proof.
   intros e c s g Hg. apply everywhere. intros j r Hj.
-  destruct (Hg j r Hj) as [Hd Hr]. cbn [load]. apply scalar_ref; assumption.
+  cbn [load]. apply scalar_ref. exact (Hg j r Hj).
 Qed.
 
 (* EnvWizard shorthand splitting *)
